@@ -412,12 +412,21 @@ fn main() {
             if let Some((traits, macs)) = &spec.inventory {
                 // the inventory of the file: (trait, implementing type) and (macro, arguments) in source order
                 let mut rows: Vec<String> = vec![];
-                fn walk(items: &[Item], traits: &[&str], macs: &[&str], rows: &mut Vec<String>) {
+                fn walk(items: &[Item], traits: &[&str], macs: &[&str], structs: &[&str], rows: &mut Vec<String>) {
                     for it in items {
                         match it {
+                            Item::Struct(st) if structs.contains(&st.ident.to_string().as_str()) => {
+                                for a in &st.attrs {
+                                    if a.path().is_ident("derive") {
+                                        if let syn::Meta::List(l) = &a.meta {
+                                            rows.push(format!("inv {} {}", json_str(&format!("derive {}", st.ident)), json_str(&l.tokens.to_string())));
+                                        }
+                                    }
+                                }
+                            }
                             Item::Mod(m) => {
                                 if let (false, Some((_, l))) = (is_cfg_test(&m.attrs), &m.content) {
-                                    walk(l, traits, macs, rows);
+                                    walk(l, traits, macs, structs, rows);
                                 }
                             }
                             Item::Impl(i) => {
@@ -438,7 +447,7 @@ fn main() {
                         }
                     }
                 }
-                walk(&file.items, traits, macs, &mut rows);
+                walk(&file.items, traits, macs, &spec.inventory_derives, &mut rows);
                 let def = format!("Definition {} : list (String.string * String.string) :=\n[{}].", spec.name, rows.join(";\n "));
                 let sig = trans::Sig { module: spec.module.to_string(), coq: spec.name.to_string(), monadic: false, extra: vec![], nparams: 0, ret: specs::Ty::Unknown };
                 return Ok((trans::Out { def, sig, aux: vec![] }, 0));
